@@ -1,5 +1,6 @@
 import DmrVerif.Lemmas.Codes
 import DmrVerif.Lemmas.Count
+import DmrVerif.Lemmas.CodesStore
 import DmrVerif.Gen.Codes
 import DmrVerif.Spec.EtsiCodes
 
@@ -104,6 +105,81 @@ theorem h16114_double (m : Bits) (hm : m.length = 11) (i j : Nat) (hij : i < j) 
       = (false, flipAt i (flipAt j (h16114.gen m))) :=
   Code.double_detected_of (wf (by simp [codes])) h16114_pairs m hm i j hij hj
 
+/-! ## the argument as a buffer: the bit order of the bitarray is not observable
+
+`storeOfBits e w` is `tobytes()` of a bitarray holding the logical bits `w` with `endian()` = big
+(`e = false`) or little (`e = true`); `genStore / checkStore / cacStore` are the entry points seen
+from the buffer (`Model/CodesStore.lean`).  The correspondence run feeds the real code bitarrays of
+both bit orders and compares with these. -/
+
+/-- the encoder output does not depend on the bit order of the message container -/
+theorem gen_any_endian {C : Code} (e : Bool) (m : Bits) (hm : m.length = C.k) :
+    C.genStore e (storeOfBits e m) C.k = C.gen m := by
+  rw [← hm]; exact Code.genStore_store C e m
+
+/-- in either bit order the checker accepts exactly the code words -/
+theorem check_iff_any_endian {C : Code} (hC : C ∈ codes) (e : Bool) (w : Bits) (hw : w.length = C.n) :
+    C.checkStore e (storeOfBits e w) C.n = true ↔ ∃ m, m.length = C.k ∧ C.gen m = w := by
+  rw [← hw, Code.checkStore_store C e w]
+  exact check_iff hC w hw
+
+theorem flipAt_length (i : Nat) (w : Bits) : (flipAt i w).length = w.length := by simp [flipAt]
+
+/-- in either bit order every Hamming code word with one inverted bit is repaired to the original
+(verdict and buffer afterwards) -/
+theorem correct_single_any_endian {C : Code} (hC : C ∈ hammingCodes) (e : Bool) (m : Bits)
+    (hm : m.length = C.k) (i : Nat) (hi : i < C.n) :
+    C.cacStore e (storeOfBits e (flipAt i (C.gen m))) C.n = (true, storeOfBits e (C.gen m)) := by
+  have hl : (flipAt i (C.gen m)).length = C.n := by rw [flipAt_length, Code.gen_length]
+  rw [← hl, Code.cacStore_store, correct_single hC m hm i hi]
+
+/-- in either bit order Hamming(16,11,4) reports every double error and leaves the buffer alone -/
+theorem h16114_double_any_endian (e : Bool) (m : Bits) (hm : m.length = 11) (i j : Nat) (hij : i < j)
+    (hj : j < 16) :
+    h16114.cacStore e (storeOfBits e (flipAt i (flipAt j (h16114.gen m)))) 16
+      = (false, storeOfBits e (flipAt i (flipAt j (h16114.gen m)))) := by
+  have hl : (flipAt i (flipAt j (h16114.gen m))).length = 16 := by
+    rw [flipAt_length, flipAt_length, Code.gen_length]; rfl
+  rw [← hl, Code.cacStore_store, h16114_double m hm i j hij hj]
+
+/-! ## histories: results that the caller keeps
+
+`Heap` lists the objects handed out so far, `HOp.run` is one call (or one overwrite by the caller),
+`runHistory` a whole history (`Model/CodesStore.lean`).  The correspondence run keeps every object
+the real code returns and reads all of them back at the end of the history. -/
+
+/-- the array returned by `generate` still holds its code word after any further history of calls
+and caller overwrites of *other* objects -/
+theorem held_codeword (C : Code) (h : Heap) (m : Bits) (ops : List HOp)
+    (hops : ∀ op ∈ ops, op.target ≠ some h.size) :
+    (runHistory ((HOp.gen C m).run h) ops).read h.size = some (C.gen m) := by
+  rw [read_runHistory _ ops h.size (by simp [HOp.run, Heap.size_push]) hops]
+  exact Heap.read_push_new h (C.gen m)
+
+/-- the code book `[X.generate(m) for m in ms]`, read after all encodes and after any further
+history that overwrites none of its arrays: entry `i` is systematic for message `i`, passes the
+checker, and entries of distinct messages differ in at least `d` positions -/
+theorem held_codebook {C : Code} (hC : C ∈ codes) (ms : List Bits) (hms : ∀ m ∈ ms, m.length = C.k)
+    (ops : List HOp) (hops : ∀ op ∈ ops, ∀ r, op.target = some r → ms.length ≤ r)
+    (i j : Nat) (hi : i < ms.length) (hj : j < ms.length) :
+    ∃ a b, (runHistory (C.genAll Heap.empty ms) ops).read i = some a
+      ∧ (runHistory (C.genAll Heap.empty ms) ops).read j = some b
+      ∧ a.length = C.n ∧ a.take C.k = ms[i] ∧ C.check a = true
+      ∧ (ms[i] ≠ ms[j] → C.d ≤ hammingDist a b) := by
+  have hsize : ms.length ≤ (C.genAll Heap.empty ms).size := by
+    rw [Code.size_genAll]; simp [Heap.empty, Heap.size]
+  have hread : ∀ r (hr : r < ms.length),
+      (runHistory (C.genAll Heap.empty ms) ops).read r = some (C.gen ms[r]) := by
+    intro r hr
+    rw [read_runHistory _ ops r (Nat.lt_of_lt_of_le hr hsize)
+      (fun op hop heq => by have := hops op hop r heq; omega)]
+    have := Code.read_genAll C Heap.empty ms r hr
+    simpa [Heap.empty, Heap.size] using this
+  have hmi := hms ms[i] (List.getElem_mem hi)
+  have hmj := hms ms[j] (List.getElem_mem hj)
+  exact ⟨C.gen ms[i], C.gen ms[j], hread i hi, hread j hj, (gen_systematic hC _ hmi).1,
+    (gen_systematic hC _ hmi).2, check_gen hC _ hmi, fun hne => min_distance hC _ _ hmi hmj hne⟩
+
 /-! ## non-vacuity -/
 
 example : h15113 ∈ hammingCodes := by simp [hammingCodes]
@@ -111,6 +187,16 @@ example : ([true,false,true,true,false,false,true,false,true,true,true] : Bits).
   decide +kernel
 example : h15113.checkAndCorrect (flipAt 4 (h15113.gen [true,false,true,true,false,false,true,false,true,true,true]))
     = (true, [true,false,true,true,false,false,true,false,true,true,true, false,true,false,false]) := by
+  decide +kernel
+
+/-- a little-endian bitarray: buffer `0b` = bits `1101 0000` read from the least significant bit -/
+example : bitsOfStore true [0x0b] 7 = [true,true,false,true,false,false,false] := by decide +kernel
+example : h743.cacStore true (storeOfBits true (flipAt 1 (h743.gen [false,false,false,false]))) 7
+    = (true, [0]) := by decide +kernel
+/-- a history in which the first code word is kept while a second is produced and overwritten -/
+example : (runHistory Heap.empty
+      [HOp.gen h743 [true,false,false,false], HOp.gen h743 [false,false,false,true],
+       HOp.overwrite 1 (zeros 7)]).read 0 = some (h743.gen [true,false,false,false]) := by
   decide +kernel
 
 end Dmr.C06
